@@ -17,9 +17,12 @@ BRUTE_MAX = 7
 
 
 def _affinity(g1, g2, tb, fb):
+    """Reference affinity of a pair, computed on FRESH copies of the two geometries so that nothing
+    remembered about these particular objects (identity-keyed caches) can leak into the oracle."""
     from soundevent.evaluation import affinity as A
 
-    return instrument.original(A.compute_affinity)(g1, g2, time_buffer=tb, freq_buffer=fb)
+    f1, f2 = geoms.build(geoms.to_spec(g1)), geoms.build(geoms.to_spec(g2))
+    return instrument.original(A.compute_affinity)(f1, f2, time_buffer=tb, freq_buffer=fb)
 
 
 def best_assignment(M):
@@ -124,7 +127,15 @@ def judge(ctx, ss, ts, tb, fb):
     spec = {"kind": "match", "source": ss, "target": ts, "tb": tb, "fb": fb}
     src, tgt = [geoms.build(s) for s in ss], [geoms.build(t) for t in ts]
     try:
-        list(M.match_geometries(src, tgt, time_buffer=tb, freq_buffer=fb))
+        first = list(M.match_geometries(src, tgt, time_buffer=tb, freq_buffer=fb))
+        # the property holds for every call, also the second one on the very same objects
+        second = list(M.match_geometries(src, tgt, time_buffer=tb, freq_buffer=fb))
+        ctx.mon("repeat_call")
+        if sorted(map(repr, first)) != sorted(map(repr, second)):
+            ctx.violate("repeat_call_differs", "repeat_call_differs", observed=[first[:4], second[:4]], expected="same matching", spec=spec)
+        # ... and a third call on the same objects with other buffers (judged by the same stream monitor)
+        tb3, fb3 = (tb * 8, fb * 4) if tb < 0.1 else (tb / 8, fb / 4)
+        list(M.match_geometries(src, tgt, time_buffer=tb3, freq_buffer=fb3))
     except Exception as e:
         ctx.violate_exc("raises", f"raises:{type(e).__name__}", e, spec=spec)
 
